@@ -3,6 +3,7 @@ package sig
 import (
 	"encoding/json"
 	"fmt"
+	"github.com/jech/galene/rtpconn"
 	"sync"
 	"time"
 
@@ -94,6 +95,7 @@ var Prefixes = []string{
 	"refused-password",
 	"refused-locked",
 	"refused-full",
+	"refused-duplicate-id",
 	"joined",
 	"left",
 	"kicked",
@@ -150,6 +152,11 @@ func Setup(role, prefix string, unrestricted bool) (*World, string) {
 		do(w.Send(1, lock))
 		do(w.Send(0, Join("g", role, "p")))
 	case "refused-full":
+		do(w.Send(0, Join("g", role, "p")))
+	case "refused-duplicate-id":
+		// the actor's connection announced the id of a member (bob, c2):
+		// valid credentials, refused after the credential checks
+		w.Clients[0] = &Client{V: rtpconn.VerifNewClient("c2"), ID: "c2", View: map[string]UserView{}}
 		do(w.Send(0, Join("g", role, "p")))
 	case "joined":
 		do(w.Send(0, Join("g", role, "p")))
